@@ -290,16 +290,20 @@ class IntroVisitor(ast.NodeVisitor):
         self._input_sig = function_input_sig
         self._call_stack = call_stack
         self._store_names: Set[LocalVar] = set()
+        # The name nodes already analysed as the function of a call (or as the function passed to keep()).
+        self._called_nodes: Set[int] = set()
         self.inters: List[FunctionInteractions] = []
         self.load_paths: List[DDSPath] = []
 
     def visit_Call(self, node: ast.Call) -> Any:
         # _logger.debug(f"visit_Call: {node} {dir(node)} {pformat(node)}")
         # We have visited this call. No need to look at it by-name anymore.
-        n = IntroVisitor._get_call_name(node)
+        # Only this occurrence of the name: a later reference by name is made in another context
+        # (no arguments) and must still be analysed.
+        n = IntroVisitor._get_call_root(node)
         # _logger.debug(f"visit_call: call name is {n}")
         if n is not None:
-            self._store_names.add(n)
+            self._called_nodes.add(id(n))
         # All the lines of the function up to the end of the call (a call may span several lines).
         # TODO: refine it based of the nested parse tree?
         end_lineno = getattr(node, "end_lineno", None) or node.lineno
@@ -329,7 +333,7 @@ class IntroVisitor(ast.NodeVisitor):
                 and len(node.args) >= 2
                 and isinstance(node.args[1], ast.Name)
             ):
-                self._store_names.add(LocalVar(node.args[1].id))
+                self._called_nodes.add(id(node.args[1]))
         # str is the underlying type of a DDSPath
         if fi_or_p is not None and isinstance(fi_or_p, str):
             self.load_paths.append(fi_or_p)
@@ -361,6 +365,7 @@ class IntroVisitor(ast.NodeVisitor):
             and node.id not in python_builtin_names
             and LocalVar(node.id) not in self._function_var_names
             and LocalVar(node.id) not in self._store_names
+            and id(node) not in self._called_nodes
         ):
             # Quick check that it is indeed a function or a module:
             # TODO: add a test for modules
@@ -405,13 +410,13 @@ class IntroVisitor(ast.NodeVisitor):
         self.generic_visit(node)
 
     @staticmethod
-    def _get_call_name(node: ast.expr) -> Optional[LocalVar]:
+    def _get_call_root(node: ast.expr) -> Optional[ast.Name]:
         if isinstance(node, ast.Call):
-            return IntroVisitor._get_call_name(node.func)
+            return IntroVisitor._get_call_root(node.func)
         if isinstance(node, ast.Attribute):
-            return IntroVisitor._get_call_name(node.value)
+            return IntroVisitor._get_call_root(node.value)
         if isinstance(node, ast.Name):
-            return LocalVar(node.id)
+            return node
         return None
 
 
